@@ -63,6 +63,17 @@ impl Parser {
                 maybe_collision = collison;
             };
 
+            if idents.iter().any(|earlier: &Ident| earlier.name() == ident.name()) {
+                return Err(vec![new_err(
+                    ident_span,
+                    file_name,
+                    format!(
+                        "`{}` appears twice in this unpacking assignment; every name can be bound once",
+                        ident.name()
+                    ),
+                )]);
+            }
+
             idents.push(ident);
             spans.push(ident_span);
         }
